@@ -22,8 +22,8 @@ ASSUMPTIONS = [
     'an event goes to the listeners registered when it arrives (a listener removed during the delivery still sees that event); '
     'three-valued: the payload of a data-block event may or may not end with the text of the closing 650 OK line',
 ]
-BOUNDS = {'quick': {'listeners': 3, 'events': '1..2', 'wire_forms': 3, 'queue_states': 3, 'reply_shapes': '3 (mid+final), 5 (data block), 2 (5xx)'},
-          'thorough': {'listeners': 3, 'events': '1..3'}}
+BOUNDS = {'quick': {'listeners': 3, 'events': '1..2', 'wire_forms': 3, 'queue_states': 3, 'reply_shapes': '3 (mid+final), 5 (data block), 2 (5xx)', 'subscription_operations': 5},
+          'thorough': {'listeners': 3, 'events': '1..3', 'subscription_operations': 6}}
 OUTSIDE = ['events arriving inside a reply', 'listener callbacks that re-enter queue_command other than through remove_event_listener',
            'more than 3 listeners / 3 events']
 
@@ -288,8 +288,8 @@ def c02_subscription(o1: int, o2: int, o3: int, o4: int, o5: int) -> str:
 
 
 @cond(thorough=dict(parts=_SUBP, budget=900))
-def c02_subscription7(o1: int, o2: int, o3: int, o4: int, o5: int, o6: int, o7: int) -> str:
-    """7 operations"""
-    ops = [o1, o2] + [api.pick(o, 0, 7) for o in (o3, o4, o5, o6, o7)]
+def c02_subscription6(o1: int, o2: int, o3: int, o4: int, o5: int, o6: int) -> str:
+    """6 operations (7 did not finish inside 900 CPU-s per partition: 8^5 orders each)"""
+    ops = [o1, o2] + [api.pick(o, 0, 7) for o in (o3, o4, o5, o6)]
     with api.no_tracing():
         return _sub_scenario(ops)
